@@ -64,6 +64,8 @@ pub struct ExecOpts {
     pub no_fail_probe: bool,
     /// property in focus (see `violate`)
     pub focus: Option<&'static str>,
+    /// use this placement stream instead of the script's own (W4: all arenas of a case share one)
+    pub placement: Option<crate::simalloc::Placement>,
 }
 
 pub struct Consts {
@@ -155,6 +157,7 @@ pub struct Exec<'s, const M: usize> {
     /// alignment is promised, not the arena minimum
     pub interior_ok: bool,
     pub slot_fit: Option<(usize, usize)>,
+    pub pos: usize,
 }
 
 pub enum CallOut<R> {
@@ -211,6 +214,7 @@ impl<'s, const M: usize> Exec<'s, M> {
             clean_cc: None,
             interior_ok: false,
             slot_fit: None,
+            pos: 0,
         }
     }
 
